@@ -141,6 +141,7 @@ type Loop struct {
 	Wraps   [][]string `json:"wraps"`   // per function, outermost first; "base" marks the base-case if
 	Calls   []string   `json:"calls"`   // per function: how it calls the next one
 	ArgWork []int      `json:"argwork"` // per function: variant of argument expressions
+	Extra   []int      `json:"extra"`   // per function: non-tail calls back into the family (0 = none)
 	K       int        `json:"k"`
 	Mult    int        `json:"mult"`
 	Blocked string     `json:"blocked"` // "", "handler-bind", "ignore-errors", "load-string", "and"
@@ -169,6 +170,7 @@ func genLoop(blocked bool) *rapid.Generator[Loop] {
 			l.Wraps = append(l.Wraps, w)
 			l.Calls = append(l.Calls, rapid.SampledFrom(callKinds).Draw(t, "call"))
 			l.ArgWork = append(l.ArgWork, rapid.IntRange(0, 3).Draw(t, "argwork"))
+			l.Extra = append(l.Extra, rapid.SampledFrom([]int{0, 0, 1, 2, 3, 4}).Draw(t, "extra"))
 		}
 		if blocked {
 			l.Blocked = rapid.SampledFrom([]string{"handler-bind", "ignore-errors", "load-string", "macro-expansion", "and"}).Draw(t, "blocked")
@@ -263,8 +265,27 @@ func (l Loop) source(n int) string {
 				body = wrap(w, body)
 			}
 		}
-		fmt.Fprintf(&b, "(defun f%d (n acc) (probe 'h n) %s)\n", i, body)
+		// non-tail work that calls back into the family: a function that sits
+		// lower on the chain of terminal frames is called from a NON-tail
+		// position of the loop body; the call must happen on every turn
+		extra := ""
+		if i < len(l.Extra) {
+			other := fmt.Sprintf("f%d", (i+l.NFun-1)%l.NFun)
+			switch l.Extra[i] {
+			case 1:
+				// a bare statement: its value is discarded, only its effects show
+				extra = fmt.Sprintf("(if (> n 0) (%s 0 n) 0) ", other)
+			case 2:
+				extra = fmt.Sprintf("(if (> n 0) (probe 'nt (+ 1 (%s 0 n))) 0) ", next)
+			case 3:
+				extra = fmt.Sprintf("(if (> n 0) (probe 'nt (funcall %s 0 n)) 0) ", other)
+			case 4:
+				extra = "(cond ((> n 0) (helper n))) "
+			}
+		}
+		fmt.Fprintf(&b, "(defun f%d (n acc) (probe 'h n) %s%s)\n", i, extra, body)
 	}
+	fmt.Fprintf(&b, "(defun helper (n) (f0 0 n))\n")
 	fmt.Fprintf(&b, "(f0 %d 0)\n", n)
 	return b.String()
 }
